@@ -2164,6 +2164,8 @@ def _static_seq(e):
     if not (isinstance(e, ast.Call) and isinstance(e.func, ast.Name) and e.func.id in ("tuple", "list") and len(e.args) == 1 and not e.keywords):
         return None
     g = e.args[0]
+    if isinstance(g, ast.Dict) and g.keys and all(k is not None for k in g.keys):
+        return ast.copy_location(ast.Tuple(elts=[clone(k) for k in g.keys], ctx=ast.Load()), e)
     if not (isinstance(g, (ast.GeneratorExp, ast.ListComp)) and len(g.generators) == 1 and not g.generators[0].ifs):
         return None
     gen = g.generators[0]
@@ -2377,6 +2379,38 @@ def _split_isinstance_handlers(fnode, cnt):
                     for cls_, body, uses_exc in arms:
                         nh = ast.ExceptHandler(type=cls_, name=h.name if uses_exc else None, body=body)
                         ast.copy_location(nh, body[0])
+                        repl.append(nh)
+            if repl is None and h.name and isinstance(typ, ast.Tuple) and len(typ.elts) > 1:
+                # except (A, B) as exc: .. {A: a, B: b}[type(exc)] ..   ->  one handler per class
+                # with the table entry substituted (the classes of such tables have no
+                # subclasses in this repository: a subclass would be a KeyError before)
+                classes = [ast.unparse(c) for c in typ.elts]
+                lookups = [x for b in h.body for x in ast.walk(b) if isinstance(x, ast.Subscript) and isinstance(x.value, ast.Dict) and ast.unparse(x.slice) == f"type({h.name})"]
+                other_uses = sum(1 for b in h.body for x in ast.walk(b) if isinstance(x, ast.Name) and x.id == h.name)
+                if lookups and other_uses == len(lookups) and len(set(classes)) == len(classes) and all(
+                        all(k is not None for k in lk.value.keys) and sorted(ast.unparse(k) for k in lk.value.keys) == sorted(classes) for lk in lookups):
+                    repl = []
+                    for cls_ in typ.elts:
+                        ct = ast.unparse(cls_)
+
+                        class _L(ast.NodeTransformer):
+                            def visit_Subscript(self, node):
+                                if isinstance(node.value, ast.Dict) and ast.unparse(node.slice) == f"type({h.name})":
+                                    for k, v_ in zip(node.value.keys, node.value.values):
+                                        if ast.unparse(k) == ct:
+                                            return ast.copy_location(clone(v_), node)
+                                return self.generic_visit(node)
+                        body = []
+                        for b in h.body:
+                            b2 = _L().visit(clone(b))
+                            if (isinstance(b2, ast.Assign) and len(b2.targets) == 1 and isinstance(b2.targets[0], ast.Tuple) and isinstance(b2.value, ast.Tuple)
+                                    and len(b2.targets[0].elts) == len(b2.value.elts) and all(isinstance(t_, ast.Name) for t_ in b2.targets[0].elts) and all(_literalish(v_) for v_ in b2.value.elts)):
+                                for t_, v_ in zip(b2.targets[0].elts, b2.value.elts):
+                                    body.append(ast.copy_location(ast.Assign(targets=[t_], value=v_, type_comment=None), b2))
+                            else:
+                                body.append(b2)
+                        nh = ast.ExceptHandler(type=clone(cls_), name=None, body=body)
+                        ast.copy_location(nh, h)
                         repl.append(nh)
             if repl:
                 new_handlers.extend(repl)
